@@ -287,6 +287,37 @@ theorem goodSt_step (st : State) (op : Op) (hg : GoodSt st) (hs : op.sane st) :
         rw [← this.2.2.2.1]; exact ho
       exact updateClient_good hg.1 (hg.2 c hc hop)
     · exact hg.2 _ hc ho
+  | updateExtFail id =>
+    refine goodSt_of_bases hg ⟨rfl, rfl, rfl, rfl⟩ ?_
+    intro d hd ho
+    obtain ⟨c, hc, ⟨_, rfl⟩ | ⟨_, rfl⟩⟩ := mem_modClient hd
+    · have hop : c.base.isOpen = true := by
+        have := updateClient_admin st.scr c
+        simp only [admin, Admin.mk.injEq] at this
+        rw [← this.2.2.2.1]; exact ho
+      exact updateClient_good hg.1 (hg.2 c hc hop)
+    · exact hg.2 _ hc ho
+  | updateFail id =>
+    refine goodSt_of_bases hg ⟨rfl, rfl, rfl, rfl⟩ ?_
+    intro d hd ho
+    obtain ⟨c, hc, ⟨_, rfl⟩ | ⟨_, rfl⟩⟩ := mem_modClient hd
+    · unfold updateClientFail at ho ⊢
+      split at ho
+      · rename_i hm
+        rw [if_pos hm]
+        have hop : c.base.isOpen = true := by
+          have := updateClient_admin st.scr c
+          simp only [admin, Admin.mk.injEq] at this
+          rw [← this.2.2.2.1]; exact ho
+        exact updateClient_good hg.1 (hg.2 c hc hop)
+      · simp [closeClient] at ho
+    · exact hg.2 _ hc ho
+  | drop id =>
+    refine goodSt_of_bases hg ⟨rfl, rfl, rfl, rfl⟩ ?_
+    intro d hd ho
+    obtain ⟨c, hc, ⟨_, rfl⟩ | ⟨_, rfl⟩⟩ := mem_modClient hd
+    · simp [closeClient] at ho
+    · exact hg.2 _ hc ho
   | newFramebuffer w h bpp tok => exact goodSt_newFramebuffer st w h bpp tok hg hs.1 hs.2
   | setDesktopSize id w h ns hook =>
     simp only [step]
